@@ -79,4 +79,4 @@ LEVEL_NOTE = ("Trusted: Lean kernel; axioms propext/Classical.choice/Quot.sound 
               "arm, on a really deserialised BitfinexPlatformEvent) - no loop-back websocket. Binance L2 only as a first update on a fresh transformer. "
               "ASCII names only. Not constrained by the spec (reported): Gateio futures/perpetual/option sells carry a negative PublicTrade.amount while "
               "every other connector reports the absolute quantity; batches that mix symbols are attributed wholly to the first trade's instrument.")
-SUBCHECKS = ["C13S"]
+SUBCHECKS = ["C13S", "C13Q", "C13V"]
